@@ -742,13 +742,14 @@ class XsdAttributeGroup(
         elif result is not None and context.fill_missing:
             if context.filler is None:
                 result.extend(
-                    (k, None) for k in self._attribute_group
-                    if k is not None and k not in obj
+                    (k, None) for k, v in self._attribute_group.items()
+                    if k is not None and k not in obj and v.use != 'prohibited'
                 )
             else:
                 result.extend(
                     (k, context.filler(v)) for k, v in self._attribute_group.items()
                     if k is not None and k not in obj and isinstance(v, XsdAttribute)
+                    and v.use != 'prohibited'
                 )
         return result
 
